@@ -18,7 +18,7 @@ C[PA + 'serialize_end'] = dict(params=dict(self='Annotation', include_plus='bool
 C[PA + 'serialize'] = dict(params=dict(self='Annotation', include_plus='bool'), returns='str', pure=True, trusted=True,
                            bounded_by='single-chain serializer: round trip checked by bounded/C01.py', ensures=[])
 C[PA + 'split'] = dict(params=dict(self='Annotation'), returns='List[Annotation]', pure=True, trusted=True,
-                       bounded_by='one-residue pieces: checked by bounded/C07.py / bounded/C19.py', ensures=[])
+                       bounded_by='proved against its own contract in contracts/pieces.py (piece i is slice(i, i+1) of the peptide without labile modifications, which go to the first piece)', ensures=[])
 C['peptacular.proforma.proforma_parser:parse'] = dict(params=dict(sequence='str'), returns='Annotation', pure=True, trusted=True,
                                                       bounded_by='the parser: bounded/C01.py, exception safety C09', ensures=[])
 # pop_mods(): removes every modification, hands the residue modifications back under the key 'internal'
